@@ -2,9 +2,10 @@
 (* Model-checking root for BitfieldImpl: the three constants come from the
    environment so that one configuration serves every (enum size, word width, bug)
    combination the check runs:
-     BF_N=9 BF_W=8 BF_BUG=none java ... tlc2.TLC -config MC_BitfieldImpl.cfg MC_BitfieldImpl *)
+     BF_N=9 BF_W=8 BF_BUG=none BF_FULL=0 java ... tlc2.TLC -config MC_BitfieldImpl.cfg MC_BitfieldImpl *)
 EXTENDS BitfieldImpl, IOUtils
 EnvN == atoi(IOEnv.BF_N)
 EnvW == atoi(IOEnv.BF_W)
 EnvBug == IOEnv.BF_BUG
+EnvFull == IOEnv.BF_FULL = "1"
 =============================================================================
